@@ -8,5 +8,11 @@ export GOCACHE="${GOCACHE:-$PWD/.cache/go-build}"
 mkdir -p bin evidence replays
 cp /repo/go.sum go.sum 2>/dev/null || true
 go build -tags verif -o bin/vcheck ./cmd/vcheck
-go vet ./model ./univ ./harness >/dev/null 2>&1 || true
+go build -o bin/instrument ./cmd/instrument
+OVL="$(mktemp -d "${TMPDIR:-/tmp}/verif-ovl.XXXXXX")"
+trap 'rm -rf "$OVL"' EXIT
+bin/instrument -src /repo -out "$OVL" >/dev/null
+go build -tags verif -overlay "$OVL/overlay.json" -o bin/vsched-setup ./cmd/vsched
+go build -race -tags verif -o bin/vrace ./cmd/vrace || echo "note: -race build unavailable; C12 runs without its companion"
+rm -f bin/vsched-setup
 echo "setup ok"
